@@ -2,9 +2,10 @@
 """Merges findings/*/_known_findings_entries.json into known_findings.json (entries replaced by id)."""
 import json, glob, os
 root = os.path.dirname(os.path.dirname(os.path.abspath(__file__)))
-kf = json.load(open(os.path.join(root, 'known_findings.json')))
-byid = {f['id']: f for f in kf['findings']}
-order = [f['id'] for f in kf['findings']]
+# known_findings.json is regenerated from scratch: the per-property entries files are the source of truth
+kf = {'findings': []}
+byid = {}
+order = []
 for path in sorted(glob.glob(os.path.join(root, 'findings', '*', '_known_findings_entries.json'))):
     e = json.load(open(path))
     e = e if isinstance(e, list) else e.get('findings', [])
